@@ -847,11 +847,11 @@ def plan_C20(ctx):
     ctx.extra["rule"] = ("IPAddr.tla: IP4Prefix / ContainsIP4 transcribed; Decl: IsDottedQuad defined directly (four groups, 1-3 digits, <= 255), "
         "ContainsDecl (found <=> some substring is a dotted quad; the reported span is one and its groups are the returned bytes), PrefixDecl "
         "(accepts exactly texts starting with a group sequence, stops at the first byte that cannot extend it, end / digit / other indication). "
-        "TLC enumerates every string over {1,2,5,6,.,x} (<= 7/8), {2,.,x} (<= 10/11), {2,5,6,.} (<= 9), {0,2,.} (<= 10), checks the Decl "
+        "TLC enumerates structured texts (junk ++ 4-5 dot-separated groups from {1,25,56,255,256,0,0002} ++ junk: embedded valid and near-valid addresses, ~49k) and every string over {1,2,5,6,.,x} (<= 7/8), {2,.,x} (<= 10/11), {2,5,6,.} (<= 9), {0,2,.} (<= 10), checks the Decl "
         "predicates on the model and emits every (string, result); each is executed on the real functions (drift).")
-    cfgs = ["b6", "b3", "b4", "bz"] if ctx.quick else ["b6x", "b3x", "b4", "bz", "b6", "b3"]
+    cfgs = ["gen", "b6", "b3", "b4", "bz"] if ctx.quick else ["gen", "b6x", "b3x", "b4", "bz", "b6", "b3"]
     for c in cfgs:
-        r = vlib.run_tlc("MC_IP4", "MC_IP4_%s.cfg" % c, workers=8, timeout=3000)
+        r = vlib.run_tlc("MC_IP4", "MC_IP4_%s.cfg" % c, workers=8, timeout=3000) if c != "gen" else vlib.run_tlc("MC_IP4Gen", "MC_IP4Gen.cfg", workers=8, timeout=3000)
         if not r["ok"]: raise Machinery("TLC failed on MC_IP4/%s:\n%s" % (c, r["tail"]))
         ctx.states += r["distinct"]; ctx.transitions += r["generated"]
         drift_out = os.path.join(r["dir"], "drift.ndjson")
@@ -863,7 +863,7 @@ def plan_C20(ctx):
         if x["drift"]:
             ctx.notes.append("drift on %d records of MC_IP4/%s, judged by TLC" % (x["drift"], c))
             ctx.judge("Judge_IP4", drift_out)
-        if c in ("b4", "bz"): audit_sample(ctx, r["out"], 997 if ctx.quick else 199, module="Judge_IP4")
+        if c in ("b4", "bz", "gen"): audit_sample(ctx, r["out"], 997 if ctx.quick else 199, module="Judge_IP4")
         shutil.rmtree(r["dir"], ignore_errors=True)
     ctx.nontrivial = ctx.records
     ctx.need("strings executed on the real IPv4 functions", ctx.records, 100000)
